@@ -16,7 +16,7 @@ import numpy as np
 from numba import njit  # type: ignore
 from numpy.typing import NDArray
 
-from nucs.constants import EVENT_MASK_GROUND, EVENT_MASK_MIN, MAX, MIN
+from nucs.constants import EVENT_MASK_GROUND, EVENT_MASK_MIN, MAX, MIN, PROBLEM_INCONSISTENT
 from nucs.heuristics.heuristics import first_not_instantiated_var_heuristic
 from nucs.problems.problem import Problem
 from nucs.propagators.propagators import ALG_AFFINE_EQ, ALG_AFFINE_LEQ, ALG_ALLDIFFERENT, add_propagators
@@ -153,8 +153,8 @@ def golomb_consistency_algorithm(
         # hence there will be at least n-2 unused numbers greater than 0
         for var_idx in range(index(mark_nb, ni_var_idx - 2, ni_var_idx - 1) + 1):
             dist = shr_domains_stack[top, dom_indices_arr[var_idx], MIN]  # no offset
-            if dist < len(used_distance):
-                used_distance[dist] = True
+            if dist == shr_domains_stack[top, dom_indices_arr[var_idx], MAX] and dist < len(used_distance):
+                used_distance[dist] = True  # only an instantiated distance is known to be used
         # let's compute the sum of non-used numbers
         distance = 1
         for j in range(0, mark_nb - ni_var_idx):
@@ -165,17 +165,20 @@ def golomb_consistency_algorithm(
         for i in range(ni_var_idx - 1, mark_nb - 1):
             for j in range(i + 1, mark_nb):
                 dom_idx = dom_indices_arr[index(mark_nb, i, j)]
-                shr_domains_stack[top, dom_idx, MIN] = minimal_sum[j - i]  # no offset
-                events = EVENT_MASK_MIN
-                if shr_domains_stack[top, dom_idx, MIN] == shr_domains_stack[top, dom_idx, MAX]:
-                    events |= EVENT_MASK_GROUND
-                add_propagators(
-                    triggered_propagators,
-                    not_entailed_propagators_stack[top],
-                    shr_domains_propagators,
-                    dom_idx,
-                    events,
-                )
+                if shr_domains_stack[top, dom_idx, MIN] < minimal_sum[j - i]:  # a lower bound is never decreased
+                    shr_domains_stack[top, dom_idx, MIN] = minimal_sum[j - i]  # no offset
+                    if shr_domains_stack[top, dom_idx, MIN] > shr_domains_stack[top, dom_idx, MAX]:
+                        return PROBLEM_INCONSISTENT
+                    events = EVENT_MASK_MIN
+                    if shr_domains_stack[top, dom_idx, MIN] == shr_domains_stack[top, dom_idx, MAX]:
+                        events |= EVENT_MASK_GROUND
+                    add_propagators(
+                        triggered_propagators,
+                        not_entailed_propagators_stack[top],
+                        shr_domains_propagators,
+                        dom_idx,
+                        events,
+                    )
     return bound_consistency_algorithm(
         statistics,
         algorithms,
